@@ -4,6 +4,7 @@
 -/
 import Nervus.Driver.VTok
 import Nervus.Spec.CypherValue
+import Nervus.Spec.Findings
 namespace Nervus.Driver.ValueStream
 open Nervus Nervus.Eval Nervus.Driver Nervus.Driver.VTok
 
@@ -13,31 +14,14 @@ def binOps : List (String × BinOp) := [
   ("pow", .pow), ("in", .inList), ("sw", .startsWith), ("ew", .endsWith), ("ct", .contains),
   ("isnull", .isNull), ("isnotnull", .isNotNull)]
 
-/-! ### known-finding triggers -/
-
-/-- K1: two strings among the operands are compared as temporal values with a result that differs
-    from their text order (`compare_strings_with_temporal`) -/
-def temporalIncoherent (E : Env) (vs : List Value) : Bool :=
-  let ss := vs.flatMap stringsOf
-  ss.any fun s => ss.any fun t => strCmp E s t != Value.cmpBytes s t
-
-/-- a map or an external id somewhere inside -/
-partial def hasNonScalar : Value → Bool
-  | .map _ => true
-  | .externalId _ => true
-  | .list xs => xs.any hasNonScalar
-  | _ => false
-
-/-- K2: a list operand contains a map / external id: inside lists `<` uses the derived structural order
-    (`order_compare_non_null`) while `=` uses `cypher_equals` -/
-def listNonScalar (vs : List Value) : Bool :=
-  vs.any fun v => match v with
-    | .list xs => xs.any hasNonScalar
-    | _ => false
+/-! ### known-finding triggers (the predicates of `Nervus.Spec.Findings`) -/
 
 def triggers (E : Env) (vs : List Value) : String :=
-  " ".intercalate ((if temporalIncoherent E vs then ["C23-temporal-string-compare"] else []) ++
-    (if listNonScalar vs then ["C23-list-nonscalar-order"] else []))
+  " ".intercalate (
+    -- K1: two strings among the operands are compared as temporal values, differently from their text order
+    (if !Spec.textCoherent E (vs.flatMap Spec.stringsOf) then ["C23-temporal-string-compare"] else []) ++
+    -- K2: a list operand contains a map / graph id / blob …: inside lists `<` uses the ORDER BY comparator
+    (if !vs.all Spec.inScope then ["C23-list-nonplain-order"] else []))
 
 /-! ### the Spec's opinion on one operator application -/
 
@@ -101,7 +85,7 @@ def triC : Value → Char
 
 def b01 (b : Bool) : String := if b then "1" else "0"
 
-def lawVerdicts (r : Array Char) (cleanA cleanB : Bool) : String :=
+def lawVerdicts (r : Array Char) (cleanA cleanB cleanC : Bool) : String :=
   let g (i : Nat) : Char := r.getD i '?'
   let aa := g 0; let ab := g 1; let ba := g 2; let bc := g 3; let ac := g 4
   let ltab := g 5; let leab := g 6; let gtab := g 7; let geab := g 8; let gtba := g 9; let geba := g 10
@@ -115,8 +99,8 @@ def lawVerdicts (r : Array Char) (cleanA cleanB : Bool) : String :=
       (if ltab == 'N' then b01 (leab == 'N') else b01 (leab == tOr ltab ab)) else "-"
   let l6 := if cleanA && cleanB && ltab != 'N' then
       b01 (([ltab, ab, gtab].filter (· == 'T')).length == 1 && geab == tOr gtab ab) else "-"
-  let l7 := if ltab == 'T' && ltbc == 'T' then b01 (ltac == 'T') else "-"
-  let l8 := if leab == 'T' && lebc == 'T' then b01 (leac == 'T') else "-"
+  let l7 := if cleanA && cleanB && cleanC && ltab == 'T' && ltbc == 'T' then b01 (ltac == 'T') else "-"
+  let l8 := if cleanA && cleanB && cleanC && leab == 'T' && lebc == 'T' then b01 (leac == 'T') else "-"
   " ".intercalate [l1, l2, l3, l4, l5, l6, l7, l8]
 
 def lawsSpec : String := "1/- 1 1/- 1 1/- 1/- 1/- 1/-"
@@ -152,7 +136,7 @@ def step (_ : Unit) (ws : List String) : Unit × String × String × String :=
           eq a a, eq a b, eq b a, eq b c, eq a c,
           cv .lt a b, cv .le a b, cv .gt a b, cv .ge a b, cv .gt b a, cv .ge b a,
           cv .lt b c, cv .le b c, cv .lt a c, cv .le a c].map triC
-        let m := lawVerdicts raw (Spec.clean a) (Spec.clean b) ++ " | " ++ String.ofList raw.toList
+        let m := lawVerdicts raw (Spec.clean a) (Spec.clean b) (Spec.clean c) ++ " | " ++ String.ofList raw.toList
         ((), m, lawsSpec, triggers E [a, b, c])
       | _, _, _ => ((), "bad-op", "-", "")
     | _, _ => ((), "bad-op", "-", "")
